@@ -45,6 +45,7 @@ type Cfg struct {
 	PageSize   int     `json:"page_size"`
 	MaxSize    int     `json:"max_size"` // 0 = unbounded
 	InitMeta   int     `json:"init_meta"`
+	PQObserver bool    `json:"pq_observer,omitempty"` // queue opened with a statistics observer
 	Prealloc   bool    `json:"prealloc,omitempty"`
 	WALLimit   int     `json:"wal_limit"`
 	GrowPct    int     `json:"grow_pct,omitempty"`
